@@ -497,7 +497,9 @@ fn apply(ctx: &mut Ctx, w: &mut World, op: &Op) -> Vec<(usize, NlriChange, &'sta
             w.log.push(format!("drop_llgr_stale[{}] peer={}", FAM_NAME[fam], peer));
             let t = &mut w.t;
             let r = guard(|| t.drop_llgr_stale(addr, family(fam), None));
-            w.paths.retain(|p| !(p.fam == fam && p.addr == addr && p.llgr_stale()));
+            // (since /repo 279814e) only entries whose *session* is LLGR-stale are purged; a fresh
+            // path that merely carries the LLGR_STALE community stays
+            w.paths.retain(|p| !(p.fam == fam && p.addr == addr && p.sess.llgr.get()));
             r.map(|(cs, _)| out.extend(cs.into_iter().map(|c| (fam, c, "drop_llgr_stale"))))
         }
         Op::NewSession { peer, fam } => {
